@@ -535,7 +535,10 @@ def part2(ctx, env, history=None):
             ob['T%d.qs' % t] = lambda t=t: sorted(q.id for q in ts[t].qs)
         return ob
     reloads = [lambda: select(i for i in I)[:], lambda: select(q for q in Q)[:], lambda: select(o for o in O)[:], lambda: select(t for t in T)[:],
-               lambda: I.select_by_sql('SELECT * FROM I'), lambda: O.select_by_sql('SELECT * FROM O'), lambda: Q.select_by_sql('SELECT * FROM Q')]
+               lambda: I.select_by_sql('SELECT * FROM I'), lambda: O.select_by_sql('SELECT * FROM O'), lambda: Q.select_by_sql('SELECT * FROM Q'),
+               # prefetching re-queries collections, also the fully loaded ones (Set.prefetch_load_all)
+               lambda: select(q for q in Q).prefetch(Q.tags)[:], lambda: select(q for q in Q).prefetch(Q.items)[:],
+               lambda: select(t for t in T).prefetch(T.qs)[:], lambda: select(q for q in Q).prefetch(Q.one, T, I)[:]]
     def gen_script():
         names = sorted(observations({}, {}))
         hot = rng.sample(names, rng.choice([2, 3, 4]))
@@ -602,6 +605,16 @@ def part2(ctx, env, history=None):
         run_script([['reload', rl], ['read', 'Q1.one'], ['w', 'UPDATE O SET q = ? WHERE id = ?', [2, 1]], ['reload', rl], ['read', 'Q1.one'], ['read', 'Q2.one']], 'part2-fixed')
         run_script([['read', 'Q2.one'], ['w', 'UPDATE O SET q = ? WHERE id = ?', [2, 2]], ['reload', rl], ['read', 'Q2.one']], 'part2-fixed')
         run_script([['read', 'Q1.one'], ['w', 'UPDATE O SET q = NULL WHERE id = ?', [1]], ['reload', rl], ['read', 'Q1.one']], 'part2-fixed')
+    # prefetch of a fully loaded collection after a foreign link change (many-to-many both sides, one-to-many)
+    for ob_name, wsql, wargs, rl in (('Q1.tags', 'INSERT OR IGNORE INTO Q_T (%s, %s) VALUES (?, ?)' % (qc, tc), [1, 3], 7),
+                                     ('Q1.len(tags)', 'INSERT OR IGNORE INTO Q_T (%s, %s) VALUES (?, ?)' % (qc, tc), [1, 3], 7),
+                                     ('Q1.tags', 'DELETE FROM Q_T WHERE %s = ? AND %s = ?' % (qc, tc), [1, 2], 7),
+                                     ('T2.qs', 'INSERT OR IGNORE INTO Q_T (%s, %s) VALUES (?, ?)' % (qc, tc), [3, 2], 9),
+                                     ('T2.qs', 'INSERT OR IGNORE INTO Q_T (%s, %s) VALUES (?, ?)' % (qc, tc), [3, 2], 7),
+                                     ('Q1.items', 'UPDATE I SET q = ? WHERE id = ?', [1, 2], 8),
+                                     ('Q1.len(items)', 'INSERT OR IGNORE INTO I (id, q, v) VALUES (?, ?, 9)', [5, 1], 8),
+                                     ('Q1.tags', 'INSERT OR IGNORE INTO Q_T (%s, %s) VALUES (?, ?)' % (qc, tc), [1, 3], 10)):
+        run_script([['read', ob_name], ['w', wsql, wargs], ['reload', rl], ['read', ob_name]], 'part2-fixed')
     n = ctx.scale(150, 2000)
     for case_no in range(n):
         run_script(gen_script(), 'part2')
